@@ -181,7 +181,8 @@ def run_nx(units, tier, repo, use_cache=True):
             work = os.path.join(WORK, 'nx-%s-%d' % (th, os.getpid()))
             try:
                 try:
-                    kxrun.prepare(repo, work)
+                    kxrun.prepare(repo, work, shim=False)
+                    shutil.copy(os.path.join(repo, 'Cargo.lock'), os.path.join(work, 'Cargo.lock'))
                 except (RuntimeError, OSError, subprocess.CalledProcessError) as e:
                     out[crate] = {'tests': {}, 'error': 'injection: %s' % e, 'wall_s': 0, 'cmd': ''}
                     continue
